@@ -23,6 +23,7 @@ func dumpAll(a Arguments, depth int) reflect.Value {
 	dumpScopeVars(&b, a.runtime.scope, 0)
 	dumpScopeVarsToDepth(&b, a.runtime.parent, depth)
 
+	a.runtime.set.gmx.RLock()
 	vars = a.runtime.set.globals
 	for i, name := range vars.SortedKeys() {
 		if i == 0 {
@@ -31,6 +32,7 @@ func dumpAll(a Arguments, depth int) reflect.Value {
 		val := vars[name]
 		fmt.Fprintf(&b, "\t%s:=%#v // %s\n", name, val, val.Type())
 	}
+	a.runtime.set.gmx.RUnlock()
 
 	blockKeys := a.runtime.scope.sortedBlocks()
 	fmt.Fprintln(&b, "Blocks:")
